@@ -78,6 +78,24 @@ CLAIMED["C13"] = (
     "DESIGN.md §4 C13",
 )
 
+CLAIMED["C04"] = (
+    "Theorems for syntax trees of any depth and width: if every child edge that occurs is followed with multiplicity 1 the visit "
+    "sequence equals the node list (walk_eq_nodes; also necessary: once_requires_one; a dropped field hides its subtree, a doubled "
+    "field doubles it), every subscribed check is called once per node of its kinds (calls_once) and an unsubscribed type never. "
+    "The edge table of refurb's traverser is regenerated on every run by EXECUTING every visit method on a corpus with recording "
+    "visitors, and kernel-checked to be all-ones on the reference schema (mypy's own traverser fields) minus the committed alias "
+    "fields, with no extra edges (every_node_once). Tied to the code further by an identity probe (all 83 node types subscribed; "
+    "each node object handed over exactly once) and a metamorphic oracle with real checks: 17 idioms x 80 contexts + random "
+    "compositions to depth 5, each diagnosed exactly once at the shifted position.",
+    COMMON_NOTE
+    + "Modelled, not verified: the traversal is abstracted to per-(class, field) multiplicities (field order inside one node is not "
+    "modelled); the reference notion of 'nodes of a file' = fields read off mypy/traverser.py (source scan, mypy's compiled traverser "
+    "cannot be subclassed) minus aliasFields (Model/Tree.lean, trusted, validated by the probe); checks' private visitors (FURB145 "
+    "etc.) are covered by the metamorphic oracle only. Node classes mypy never builds from source are not exercised.",
+    "Lean 4 proof (mutual structural induction over trees) over an edge table regenerated by execution (decide +kernel) + identity probe + metamorphic context oracle",
+    "DESIGN.md §4 C04",
+)
+
 NOT_YET = "check not built yet in this round (work in progress; see DESIGN.md §8 order of work)"
 
 
